@@ -35,7 +35,9 @@ def make_config(seed, tier="quick"):
     prefix = r.choice(PREFIXES)
     if role == "acceptor" and prefix == "logon_sent":
         prefix = "connected"
-    return dict(
+    rs = random.Random(seed ^ 0xC115F)
+    speak_first = role == "initiator" and rs.random() < 0.3
+    cfg = dict(
         seed=seed,
         eut_role=role,
         prefix=prefix,
@@ -65,6 +67,15 @@ def make_config(seed, tier="quick"):
         max_boundaries=6000,
         start_offset=round(r.random(), 3),
     )
+    cfg["speak_first"] = speak_first
+    if speak_first:
+        # scenario family "the acceptor speaks first / Logon attempts that come to nothing": initiator that sends its
+        # own Logon as a stimulus (hooks of the Logon handling parked), a peer that may answer before it was asked,
+        # close without answering, and quick reconnects
+        cfg.update(prefix="connected", mid_hook_stimuli=True, hb=rs.choice([1, 2]), n_stim=max(cfg["n_stim"], 5),
+                   stim_classes=["send", "send", "peer_close", "frame", "app_disconnect"],
+                   frame_types=["A", "A", "D", "5"], defects=["none", "none", "seq_high"], p_overlap=0.0)
+    return cfg
 
 
 class GateSim(PeerSim):
@@ -95,7 +106,7 @@ class GateSim(PeerSim):
 
     def hook_p(self, label, hname):
         if self.cfg.get("mid_hook_stimuli") and hname in ("on_state_change", "on_connect", "on_logon") \
-                and self.hook_counts[(label, hname)] <= 2:
+                and self.hook_counts[(label, hname)] <= (8 if self.cfg.get("speak_first") else 2):
             return 0.8  # park the first hooks of the connection: the transient Logon states become reachable
         return self.cfg["p_hook"] if hname in self.cfg["hook_names"] else 0.0
 
@@ -303,6 +314,10 @@ class GateSim(PeerSim):
         cfg = self.cfg
         classes = cfg["stim_classes"]
         if overlap:
+            if cfg.get("speak_first") and self.peer.connected and r.random() < 0.5:
+                # the peer speaks first: its Logon arrives while the initiator's own Logon send is still parked
+                # in the state hook (the state is already LOGON_INITIAL_SENT)
+                return ["frame", "A", "none", 0, 1]
             classes = [c for c in classes if c in ("app_disconnect", "peer_close", "send")] or ["app_disconnect"]
         cls = r.choice(classes)
         if cls in ("frame", "frame_burst") and not self.peer.connected:
